@@ -406,7 +406,9 @@ func c17Gen(t *rapid.T) c17Case {
 	default:
 		c.Sub = "words"
 	}
-	style := func() int { return rapid.IntRange(0, 3).Draw(t, "style") }
+	// only the documented syntax --name=<value> (single dashes and separate
+	// value arguments are what Go's flag package happens to accept too)
+	style := func() int { return 0 }
 	classList := func(label string) string {
 		// (an explicitly empty list is not documented: "default" and "no class" are both defensible)
 		n := rapid.IntRange(1, 4).Draw(t, label+"_n")
